@@ -1592,6 +1592,13 @@ coap_oscore_decrypt_pdu(coap_session_t *session,
                                      0);
             goto error_no_ack;
           }
+          /*
+           * RFC8613 Appendix B.1.2: the Partial IV of the request that
+           * carries the Echo value is the LOWER edge of the Replay Window.
+           * Every lower Partial IV may have been accepted before the
+           * restart, so all of them count as received.
+           */
+          rcp_ctx->sliding_window = ~(uint64_t)0;
         } else
           goto error;
       } else {
